@@ -44,3 +44,34 @@ Theorem C04_sta_window : forall delays cap ops (e : wenv) (w0 : nat -> win),
   (forall k, covers (w0 k) (e k)) ->
   forall k, covers (sta delays ops w0 k) (wexec delays cap ops e k).
 Proof. exact KV.Proofs.WaveCircuit.sta_window. Qed.
+
+(** CIRCUIT LEVEL shift / scale / monotonicity: the per-gate theorems folded over ANY op list (Proofs/WaveCircuit2.v).
+    No side condition is needed for shift and scale: sentinels are fixed points of [shift] / [scale], hence constant signals
+    (the zero slot, constant inputs, unused slots) are their own shift, and every gate evaluation terminates on any operands. *)
+From KV Require Import Model.WaveAcc.
+From KV Require Proofs.WaveCircuit2.
+Theorem C04_circuit_shift : forall delays cap ops (e : wenv) delta k,
+  wexec delays cap ops (fun j => map (shift delta) (e j)) k = map (shift delta) (wexec delays cap ops e k).
+Proof. exact KV.Proofs.WaveCircuit2.circuit_shift. Qed.
+
+Theorem C04_circuit_scale : forall delays cap ops (e : wenv) c k, (0 < c)%Z ->
+  wexec (fun j => dscale c (delays j)) cap ops (fun j => map (scale c) (e j)) k = map (scale c) (wexec delays cap ops e k).
+Proof. exact KV.Proofs.WaveCircuit2.circuit_scale. Qed.
+
+(* the rerun form: inputs with transitions are moved, signals without a finite entry are left untouched *)
+Theorem C04_circuit_shift_inputs : forall delays cap ops (e e' : wenv) delta,
+  (forall j, e' j = map (shift delta) (e j) \/ (e' j = e j /\ no_fin (e j))) ->
+  forall k, wexec delays cap ops e' k = map (shift delta) (wexec delays cap ops e k).
+Proof. exact KV.Proofs.WaveCircuit2.circuit_shift_inputs. Qed.
+
+Theorem C04_circuit_scale_inputs : forall delays cap ops (e e' : wenv) c, (0 < c)%Z ->
+  (forall j, e' j = map (scale c) (e j) \/ (e' j = e j /\ no_fin (e j))) ->
+  forall k, wexec (fun j => dscale c (delays j)) cap ops e' k = map (scale c) (wexec delays cap ops e k).
+Proof. exact KV.Proofs.WaveCircuit2.circuit_scale_inputs. Qed.
+
+(* polarity-independent delays on every line: every waveform of the circuit is strictly increasing *)
+Theorem C04_circuit_mono : forall delays cap ops (e : wenv),
+  KV.Proofs.WaveCircuit.good_delays delays -> KV.Proofs.WaveCircuit.good_caps cap ->
+  (forall k, dtab_polfree (delays k)) -> (forall k, wf_wave (e k)) -> (forall k, strictly_increasing (e k)) ->
+  forall k, strictly_increasing (wexec delays cap ops e k).
+Proof. exact KV.Proofs.WaveCircuit2.circuit_mono. Qed.
